@@ -49,12 +49,15 @@ class Expected:
     """What a reply must contain: exact records, plus per-service NSEC obligations."""
 
     def __init__(self) -> None:
-        self.records: Dict[tuple, int] = {}  # identity -> configured TTL
+        self.records: Dict[tuple, int] = {}  # identity -> configured TTL (of the last service that owns it)
+        self.ttls: Dict[tuple, Set[int]] = {}  # identity -> every TTL some owning service configured
+        self.optional: Set[tuple] = set()  # identities that may or may not be offered (known answer between the TTLs' halves)
         self.nsec: List[Tuple[Svc, Tuple[int, ...]]] = []  # (service, missing types) each needs one NSEC answer
         self.enum_types: Set[str] = set()  # enumeration pointers (identity by lower-cased target)
 
     def add(self, rec: tuple) -> None:
         self.records[ident(rec)] = rec[3]
+        self.ttls.setdefault(ident(rec), set()).add(rec[3])
 
 
 def answer(registry: Dict[str, Svc], questions: Sequence[Tuple[str, int]], known: Sequence[tuple]) -> Expected:
@@ -88,8 +91,12 @@ def answer(registry: Dict[str, Svc], questions: Sequence[Tuple[str, int]], known
             i = ident(k)
         except ValueError:
             continue
-        if i in exp.records and k[3] > exp.records[i] / 2:
-            del exp.records[i]
+        if i in exp.records:
+            # services sharing a host (and address) may configure different TTLs for the very same record
+            if k[3] > max(exp.ttls[i]) / 2:
+                del exp.records[i]
+            elif k[3] > min(exp.ttls[i]) / 2:
+                exp.optional.add(i)
         if k[0] == "PTR" and k[1].lower() == ENUM and k[4].lower() in exp.enum_types and k[3] > 4500 / 2:
             exp.enum_types.discard(k[4].lower())
     return exp
